@@ -37,6 +37,7 @@ mod mon_c19;
 mod mon_c20;
 mod mon_kamino;
 mod mon_drift;
+mod mon_solend;
 mod mon_venue;
 mod rng;
 mod scen;
@@ -147,7 +148,7 @@ fn main() {
             let n: usize = args[4].parse().unwrap();
             let mut rng = Rng::new(seed ^ 0x5EED_0000 ^ prop.bytes().fold(0u64, |a, b| a.wrapping_mul(131).wrapping_add(b as u64)));
             let mut rep = mon::Report::default();
-            let known = ["IX", "C02", "C03", "C08", "BR", "GATE", "LIQ", "TXS", "BKR", "XFER", "VEN", "ORA", "C12", "ADM", "C13", "C14", "C15", "C17", "C18", "C19", "C20", "KAM", "DRF"];
+            let known = ["IX", "C02", "C03", "C08", "BR", "GATE", "LIQ", "TXS", "BKR", "XFER", "VEN", "ORA", "C12", "ADM", "C13", "C14", "C15", "C17", "C18", "C19", "C20", "KAM", "DRF", "SLD"];
             if !known.contains(&prop) {
                 eprintln!("no monitor for {}", prop);
                 std::process::exit(2);
@@ -180,6 +181,7 @@ fn main() {
                 "C20" => mon_c20::run(&mut rng, budget, &mut rep),
                 "KAM" => mon_kamino::run(&mut rng, budget, &mut rep),
                 "DRF" => mon_drift::run(&mut rng, budget, &mut rep),
+                "SLD" => mon_solend::run(&mut rng, budget, &mut rep),
                     _ => unreachable!(),
                 }));
                 if r.is_ok() {
